@@ -51,10 +51,13 @@ def cases(ctx):
     for name, doc in gen.fixture_docs():
         if (name.startswith("github") or name.startswith("vega")) and ctx.tier != "thorough": continue
         out.append(("fixture:" + name, doc))
+    import corpus
+    for cid, cdoc, _ in corpus.oracle_documents():
+        if cid.startswith(("hand:", "file:")): out.append(("corpus:" + cid, cdoc))
     n = 300 if ctx.tier == "thorough" else 36
     for k in range(n):
         fs = [gen.DEFAULT_FEATURES, gen.FEATURE_SETS["formats"], gen.FEATURE_SETS["allof"], gen.FEATURE_SETS["recursive"],
-              gen.DEFAULT_FEATURES, gen.FEATURE_SETS["maps"] - {"defaults"}][k % 6]
+              gen.DEFAULT_FEATURES, gen.FEATURE_SETS["maps"] - {"defaults"}, gen.FEATURE_SETS["unions"]][k % 7]
         out.append(("gen:%d" % k, gen.gen_universe(ctx.rng, 3 + k % 7, set(fs))))
     return out
 
@@ -104,6 +107,20 @@ def attribute(fd_list, doc, key, schema, value, dump, answer=""):
                         if isinstance(v, list): return any(hit(x) for x in v)
                         return False
                     if hit(value): return fd
+        if fd["id"] == "C02-untagged-deny-flatten-map" and isinstance(value, (dict, list)):
+            for e in dump["entries"].values():
+                if e["kind"] == "enum" and e["tag"] == "untagged" and e.get("deny"):
+                    for x in e["variants"]:
+                        ps = x["details"].get("struct") if isinstance(x["details"], dict) else None
+                        if ps and any(p.get("rename") == "flatten" for p in ps):
+                            named = {p["name"] for p in ps if p.get("rename") != "flatten"}
+                            req = {p["name"] for p in ps if p["state"] == "required" and p.get("rename") != "flatten"}
+                            def hit3(v):
+                                if isinstance(v, dict):
+                                    return (req <= set(v) and bool(set(v) - named)) or any(hit3(y) for y in v.values())
+                                if isinstance(v, list): return any(hit3(y) for y in v)
+                                return False
+                            if hit3(value): return fd
         if fd["id"] == "C02-variant-shared-inline-type":
             from props import c05 as _c05
             pairs = _c05.shared_variant_types(dump)
